@@ -31,6 +31,7 @@ def main():
         return 2
     os.makedirs(vlib.WORK, exist_ok=True)
     t0 = time.time()
+    ctx = None
     try:
         ctx = vlib.Ctx(pid, tier, replay)
         rc = mod.run(ctx)
@@ -44,6 +45,12 @@ def main():
     except Exception:
         traceback.print_exc()
         return 2
+    finally:
+        try:
+            if ctx is not None:
+                vlib.cleanup(ctx.wd)  # also after an infrastructure error (kept with VERIF_KEEP=1)
+        except Exception:
+            pass
 
 
 if __name__ == "__main__":
